@@ -363,7 +363,10 @@ def _run_ix(sh, rec):
             if rep % 3 == 2:
                 pool["other"] = (44, 48) if dim == 2 else (26, 28)
             try:
-                case = bodies.make_interaction_case(rng, kind, N, reset=reset)
+                lay = (None, None, "interior", None, "fortran", None)[rep % 6]
+                case = bodies.make_interaction_case(rng, kind, N, reset=reset, field_layout=lay)
+                if lay:
+                    rec.count("interactions_on_noncontiguous_eulerian_fields")
             finally:
                 pool["other"] = saved_other
             if case.meta["shape"][-2] > case.meta["shape"][-1]:
